@@ -40,18 +40,18 @@ REQUIRED = ['cmp_digest', 'cmp_midout', 'cmp_set_state', 'cmp_state_count', 'cmp
 
 # part -> (workers, args) per tier
 QUICK = [
-    ('hash',   16, dict(nexh=128, k=2)),
-    ('hmacct', 16, dict(nexh=132, cases=12000, k=1)),
-    ('multi',   4, dict(nexh=300, cases=1280, k=0)),
+    ('hash',   16, dict(nexh=160, k=3)),
+    ('hmacct', 32, dict(nexh=212, cases=24000, k=2)),
+    ('multi',   8, dict(nexh=300, cases=2560, k=0)),
     ('state',   2, dict(k=3)),
-    ('inject',  1, dict(cases=7000)),
-    ('shake',   2, dict(cases=2000, k=0)),
-    ('hmac',    2, dict(cases=6300)),
-    ('prf',     2, dict(cases=3000)),
-    ('hkdf',    2, dict(cases=3000)),
-    ('mgf1',    1, dict(cases=2100)),
-    ('hdrbg',   2, dict(cases=2100)),
-    ('adrbg',   4, dict(cases=1500, k=4)),
+    ('inject',  2, dict(cases=21000)),
+    ('shake',   4, dict(cases=6000, k=0)),
+    ('hmac',    2, dict(cases=18900)),
+    ('prf',     4, dict(cases=9000)),
+    ('hkdf',    4, dict(cases=9000)),
+    ('mgf1',    1, dict(cases=6300)),
+    ('hdrbg',   2, dict(cases=6300)),
+    ('adrbg',   4, dict(cases=4000, k=4)),
     ('misc',    1, dict()),
 ]
 THOROUGH = [
